@@ -1147,7 +1147,7 @@ Proof.
   apply mem_In in Hxk. apply in_map_iff in Hxk. destruct Hxk as (kv & Hfst & Hkv).
   assert (Ht : existsb (fun kv0 => existsb (fun p => is_kind PO p && N.eqb (fst kv0) (pname p))
                                            (adv_spec posos kwos ps)) kws = true).
-  { apply existsb_exists. exists kv. split; auto. cbv beta. rewrite Hfst.
+  { apply existsb_exists. exists kv. split; auto. subst x.
     apply posos_name_is_PO; auto. apply mem_In. exact Hxp. }
   congruence.
 Qed.
@@ -1157,7 +1157,7 @@ Theorem C12_call_excluded ps posos kwos adv kp args kws :
   excluded adv kws = false ->
   same_binding (decorated_call ps kp posos args kws) (bindv adv args kws).
 Proof.
-  intros Hv Hprep Hex. apply C12_call; auto.
+  intros Hv Hprep Hex. apply (C12_call ps posos kwos adv kp args kws Hv Hprep).
   rewrite (C12_sig ps posos kwos Hv) in Hprep.
   destruct (admissible posos kwos ps) eqn:Hadm; [|discriminate].
   inversion Hprep; subst adv kp. apply excluded_covers; auto.
@@ -1198,9 +1198,344 @@ Proof.
                   prepare ps posos K = Ok (adv, kp)).
   { destruct P as [|x P]; [destruct K as [|y K]|].
     - left. inversion Hd; auto.
-    - right. destruct (prepare ps [] (y :: K)) as [[a k]|]; cbn [bind fst snd] in Hd; inversion Hd; reflexivity.
-    - right. destruct (prepare ps (x :: P) K) as [[a k]|]; cbn [bind fst snd] in Hd; inversion Hd; reflexivity. }
+    - right. destruct (prepare ps [] (y :: K)) as [[a k]|] eqn:Ep; cbn [bind fst snd] in Hd; inversion Hd; subst; exact Ep.
+    - right. destruct (prepare ps (x :: P) K) as [[a k]|] eqn:Ep; cbn [bind fst snd] in Hd; inversion Hd; subst; exact Ep. }
   destruct Hcase as [(-> & -> & -> & -> & ->)|Hp].
   - unfold decorated_call, pok_call. cbn. apply same_binding_refl.
   - exact (C12_call ps posos K adv kp args kws Hv Hp Hex).
 Qed.
+
+(* ------------------------------------------------------------------ the bound copy (instance access) *)
+Lemma valid_sig_tail p ps : valid_sig (p :: ps) = true -> valid_sig ps = true.
+Proof.
+  unfold valid_sig. rewrite !andb_true_iff, !Nat.leb_le. intros [[Hval Hvp] Hvk].
+  unfold validate in *. apply validate_aux_tail in Hval. destruct Hval as (_ & _ & sd' & Hval).
+  rewrite validate_aux_split in Hval. rewrite !andb_true_iff in Hval. destruct Hval as [[Hr Hd] Hn].
+  repeat split.
+  - rewrite validate_aux_split, !andb_true_iff. repeat split.
+    + apply ranks_ok_iff in Hr. destruct Hr as [_ Hss]. apply ranks_ok_iff. split; auto.
+      apply Forall_forall. intros; lia.
+    + apply (defs_ok_mono _ false sd'). exact Hd.
+    + apply nodup_ok_iff in Hn. destruct Hn as [Hn _]. apply nodup_ok_iff. split; auto.
+  - unfold count_kind in *. simpl in Hvp. destruct (is_kind VP p); simpl in Hvp; lia.
+  - unfold count_kind in *. simpl in Hvk. destruct (is_kind VK p); simpl in Hvk; lia.
+Qed.
+
+Lemma valid_sig_drop_first ps : valid_sig ps = true -> valid_sig (drop_first ps) = true.
+Proof.
+  destruct ps as [|p ps]; simpl; auto. destruct (is_positional p); auto. apply valid_sig_tail.
+Qed.
+
+Lemma decorate_bound_inv ps f adv kp posos :
+  decorate_bound ps f = Ok (adv, kp, posos) ->
+  (adv = drop_first ps /\ kp = [] /\ posos = []) \/
+  exists kwos, prepare (drop_first ps) posos kwos = Ok (adv, kp).
+Proof.
+  unfold decorate_bound. destruct (decorate ps f); cbn [bind]; [|discriminate].
+  destruct (select ps f) as [[P K]|]; cbn [bind]; [|discriminate].
+  assert (Hgen : (do pk' <- match f with
+                            | FStart _ _ | FEnd _ _ => select (drop_first ps) f
+                            | _ => Ok (P, K)
+                            end ;;
+                  do r <- prepare (drop_first ps) (fst pk') (snd pk') ;; Ok (fst r, snd r, fst pk'))
+                 = Ok (adv, kp, posos) ->
+                 exists kwos, prepare (drop_first ps) posos kwos = Ok (adv, kp)).
+  { intros H.
+    destruct (match f with
+              | FStart _ _ | FEnd _ _ => select (drop_first ps) f
+              | _ => Ok (P, K)
+              end) as [[P' K']|]; cbn [bind fst snd] in H; [|discriminate].
+    destruct (prepare (drop_first ps) P' K') as [[adv1 kp1]|] eqn:Ep; cbn [bind fst snd] in H; [|discriminate].
+    inversion H; subst. exists K'. exact Ep. }
+  destruct P as [|x P]; [destruct K as [|y K]|].
+  - intros H. left. inversion H; auto.
+  - intros H. right. apply Hgen. exact H.
+  - intros H. right. apply Hgen. exact H.
+Qed.
+
+Lemma klookup_of_In kv (kws : kwargs) : In kv kws -> klookup (fst kv) kws <> None.
+Proof.
+  induction kws as [|[k v] kws IH]; intros H; [destruct H|].
+  simpl. destruct (N.eqb (fst kv) k) eqn:E; [discriminate|].
+  destruct H as [<-|H]; [simpl in E; rewrite N.eqb_refl in E; discriminate | auto].
+Qed.
+
+(* calling the function with the instance as first positional argument *)
+Lemma bindv_self p0 ps' s a k :
+  is_positional p0 = true -> kmem (pname p0) k = false ->
+  bindv (p0 :: ps') (s :: a) k = option_map (cons (pname p0, BV s)) (bindv ps' a k).
+Proof.
+  intros Hp Hk. unfold bindv.
+  assert (Hvk : has_kind VK (p0 :: ps') = has_kind VK ps').
+  { unfold has_kind. simpl. rewrite (positional_kinds _ Hp). reflexivity. }
+  assert (Hex : kw_extra (p0 :: ps') k = kw_extra ps' k).
+  { unfold kw_extra. apply filter_ext_in'. intros kv Hkv. f_equal.
+    unfold kwpassable_name. simpl.
+    assert (Hne : N.eqb (fst kv) (pname p0) = false).
+    { destruct (N.eqb (fst kv) (pname p0)) eqn:E; auto. apply N.eqb_eq in E.
+      exfalso. apply (klookup_of_In kv k Hkv). rewrite E. unfold kmem in Hk.
+      destruct (klookup (pname p0) k); [discriminate | reflexivity]. }
+    rewrite Hne, andb_false_r. reflexivity. }
+  rewrite Hvk, Hex.
+  destruct (has_kind VK ps' || is_nil (kw_extra ps' k)); [|reflexivity].
+  assert (Hb : bind_params (p0 :: ps') (p0 :: ps') (s :: a) k
+               = opt_cons (pname p0, BV s) (bind_params ps' ps' a k)).
+  { simpl. rewrite Hk. rewrite (bind_ext (p0 :: ps') ps' ps' a k k (fun _ _ => eq_refl) Hex).
+    unfold is_positional in Hp. destruct (pkind p0); try discriminate; reflexivity. }
+  rewrite Hb. destruct (bind_params ps' ps' a k) as [[e r]|]; simpl; auto. destruct r; reflexivity.
+Qed.
+
+Lemma call_loop_klookup_none kp : forall args kws m x,
+  klookup x kws = None -> klookup x (snd (fst (call_loop kp args kws m))) = None.
+Proof.
+  induction kp as [|[i p] kp IH]; intros args kws m x Hx; simpl; auto.
+  destruct (klookup (pname p) kws).
+  - destruct (Nat.ltb i (length args)); apply IH; auto. apply klookup_none_kremove. exact Hx.
+  - destruct (pdef p); [destruct (Nat.ltb i (length args))|]; apply IH; auto.
+Qed.
+
+Lemma same_binding_cons b o a :
+  same_binding o a -> same_binding (option_map (cons b) o) (option_map (cons b) a).
+Proof. destruct o, a; simpl; auto. Qed.
+
+Theorem C12_sig_bound ps f adv kp posos :
+  valid_sig ps = true -> decorate_bound ps f = Ok (adv, kp, posos) ->
+  (adv = drop_first ps /\ kp = [] /\ posos = []) \/
+  exists kwos, admissible posos kwos (drop_first ps) = true /\
+               adv = adv_spec posos kwos (drop_first ps) /\
+               kp = kwopos_from posos kwos 0 (drop_first ps).
+Proof.
+  intros Hv Hd. apply decorate_bound_inv in Hd. destruct Hd as [H|[kwos H]]; [left; exact H|].
+  right. exists kwos. rewrite (C12_sig _ _ _ (valid_sig_drop_first _ Hv)) in H.
+  destruct (admissible posos kwos (drop_first ps)); inversion H; auto.
+Qed.
+
+(* instance access: the bound copy, called with args / kws, calls the function
+   with the instance s first; the result is what the advertised signature of
+   the bound copy binds, plus self *)
+Theorem C12_call_bound ps f p0 ps' adv kp posos s args kws :
+  valid_sig ps = true -> ps = p0 :: ps' -> is_positional p0 = true ->
+  decorate_bound ps f = Ok (adv, kp, posos) ->
+  kmem (pname p0) kws = false ->
+  named_posonly adv posos kws = false ->
+  same_binding
+    (match pok_call kp posos args kws with
+     | Ok (args', kws') => bindv ps (s :: args') kws'
+     | Err _ => None
+     end)
+    (option_map (cons (pname p0, BV s)) (bindv adv args kws)).
+Proof.
+  intros Hv Hps Hp0 Hd Hself Hex.
+  assert (Hdf : drop_first ps = ps') by (rewrite Hps; simpl; rewrite Hp0; reflexivity).
+  pose proof (valid_sig_drop_first _ Hv) as Hv'. rewrite Hdf in Hv'.
+  apply decorate_bound_inv in Hd. rewrite Hdf in Hd. destruct Hd as [(-> & -> & ->)|[kwos Hprep]].
+  - unfold pok_call. cbn. rewrite Hps, (bindv_self p0 ps' s args kws Hp0 Hself).
+    apply same_binding_refl.
+  - pose proof (C12_call ps' posos kwos adv kp args kws Hv' Hprep Hex) as HC.
+    unfold decorated_call in HC.
+    assert (Hk' : forall a' k', pok_call kp posos args kws = Ok (a', k') -> kmem (pname p0) k' = false).
+    { unfold pok_call. intros a' k'.
+      destruct (negb (is_nil (set_inter posos (map fst kws)))); [discriminate|].
+      pose proof (call_loop_klookup_none kp args kws [] (pname p0)) as Hn.
+      destruct (call_loop kp args kws []) as [[a1 k1] m1]. cbn [fst snd] in Hn.
+      destruct m1; [|discriminate]. intros H; inversion H; subst. unfold kmem in *.
+      rewrite Hn; auto. destruct (klookup (pname p0) kws); [discriminate | reflexivity]. }
+    destruct (pok_call kp posos args kws) as [[a' k']|e].
+    + rewrite Hps, (bindv_self p0 ps' s a' k' Hp0 (Hk' a' k' eq_refl)).
+      apply same_binding_cons. exact HC.
+    + destruct (bindv adv args kws); simpl in *; auto.
+Qed.
+
+(* ------------------------------------------------------------------ autokwoargs(exceptions=...) *)
+Definition pkdef (p : param) : bool := is_kind PK p && has_def p.
+
+(* the names autokwoargs hands to kwoargs: regular parameters with a default
+   that are not excepted *)
+Definition auto_sel (ps : list param) (ex : list name) : list name :=
+  map pname (filter (fun p => pkdef p && negb (mem (pname p) ex)) ps).
+
+Lemma is_nil_minus (l' l ns : list name) :
+  (forall x, mem x l' = mem x l && negb (mem x ns)) ->
+  is_nil l' = forallb (fun x => mem x ns) l.
+Proof.
+  intros H. apply eq_true_iff_eq. rewrite is_nil_mem, forallb_forall. split.
+  - intros Hn x Hx. specialize (Hn x). rewrite H in Hn.
+    apply mem_In in Hx. rewrite Hx in Hn. simpl in Hn. destruct (mem x ns); auto.
+  - intros Hf x. rewrite H. destruct (mem x l) eqn:E; auto.
+    apply mem_In in E. rewrite (Hf x E). reflexivity.
+Qed.
+
+Lemma auto_loop_spec ps : forall exc args,
+  NoDup (names_of ps) ->
+  snd (auto_loop ps exc args) = args ++ auto_sel ps exc /\
+  forall x, mem x (fst (auto_loop ps exc args))
+            = mem x exc && negb (mem x (map pname (filter pkdef ps))).
+Proof.
+  induction ps as [|p ps IH]; intros exc args Hnd.
+  - simpl. rewrite app_nil_r. split; auto. intros x. rewrite andb_true_r. reflexivity.
+  - inversion Hnd as [|y l Hnotin Hnd']; subst y l.
+    cbn [auto_loop]. unfold auto_sel. cbn [filter]. fold (pkdef p).
+    change (kind_eqb (pkind p) PK && has_def p) with (pkdef p).
+    destruct (pkdef p) eqn:Epk; cbn [andb].
+    + destruct (mem (pname p) exc) eqn:Em; cbn [negb map].
+      * destruct (IH (set_remove (pname p) exc) args Hnd') as [I1 I2]. split.
+        -- rewrite I1. f_equal. unfold auto_sel. f_equal. apply filter_ext_in'.
+           intros q Hq. rewrite mem_set_remove.
+           assert (Hne : N.eqb (pname p) (pname q) = false).
+           { destruct (N.eqb (pname p) (pname q)) eqn:E; auto. apply N.eqb_eq in E.
+             exfalso. apply Hnotin. rewrite E. apply in_map. exact Hq. }
+           rewrite Hne. reflexivity.
+        -- intros x. rewrite I2, mem_set_remove. cbn [mem]. rewrite (N.eqb_sym x (pname p)).
+           destruct (N.eqb (pname p) x), (mem x exc), (mem x (map pname (filter pkdef ps))); reflexivity.
+      * destruct (IH exc (args ++ [pname p]) Hnd') as [I1 I2]. split.
+        -- rewrite I1, <- app_assoc. reflexivity.
+        -- intros x. rewrite I2. cbn [mem].
+           destruct (N.eqb x (pname p)) eqn:E; cbn [orb negb]; auto.
+           apply N.eqb_eq in E. subst x. rewrite Em. reflexivity.
+    + cbn [map]. apply IH. exact Hnd'.
+Qed.
+
+Theorem C12_auto_names ps ex :
+  valid_sig ps = true ->
+  autokwoargs_names ps ex =
+  if forallb (fun x => mem x (map pname (filter pkdef ps))) ex
+  then Ok (auto_sel ps ex) else Err ValueErr.
+Proof.
+  intros Hv. apply valid_sig_parts in Hv. destruct Hv as [Hval _].
+  destruct (validate_aux_nodup _ _ _ _ Hval) as [Hnd _].
+  unfold autokwoargs_names. destruct (auto_loop_spec ps ex [] Hnd) as [H1 H2].
+  rewrite <- (is_nil_minus _ _ _ H2).
+  destruct (auto_loop ps ex []) as [exc' args']. cbn [fst snd] in *. subst args'.
+  destruct exc'; reflexivity.
+Qed.
+
+Lemma NoDup_names_inj l (p q : param) :
+  NoDup (names_of l) -> In p l -> In q l -> pname p = pname q -> p = q.
+Proof.
+  induction l as [|r l IH]; intros Hnd Hp Hq E; [destruct Hp|].
+  simpl in Hnd. inversion Hnd as [|y l' Hnotin Hnd']; subst.
+  destruct Hp as [<-|Hp], Hq as [<-|Hq]; auto.
+  - exfalso. apply Hnotin. rewrite E. apply in_map. exact Hq.
+  - exfalso. apply Hnotin. rewrite <- E. apply in_map. exact Hp.
+Qed.
+
+Lemma po_prefix_nil kwos ps : forall found, po_prefix_ok [] kwos ps found = true.
+Proof.
+  induction ps as [|p ps IH]; intros found; simpl; auto.
+  destruct (is_kind PK p); auto. destruct (mem (pname p) kwos); auto.
+Qed.
+
+(* which parameters autokwoargs moves *)
+Lemma sel_k_auto ps ex p :
+  NoDup (names_of ps) -> In p ps ->
+  sel_k [] (auto_sel ps ex) p = pkdef p && negb (mem (pname p) ex).
+Proof.
+  intros Hnd Hp. unfold sel_k. cbn [mem negb]. rewrite andb_true_r.
+  destruct (mem (pname p) (auto_sel ps ex)) eqn:Em.
+  - apply mem_In in Em. unfold auto_sel in Em. apply in_map_iff in Em.
+    destruct Em as (q & Hn & Hq). apply filter_In in Hq. destruct Hq as [Hq Hc].
+    assert (q = p) by (apply (NoDup_names_inj ps); auto). subst q.
+    rewrite Hc. apply andb_true_iff in Hc. destruct Hc as [Hc _]. unfold pkdef in Hc.
+    apply andb_true_iff in Hc. destruct Hc as [-> _]. reflexivity.
+  - rewrite andb_false_r. symmetry.
+    destruct (pkdef p && negb (mem (pname p) ex)) eqn:Ec; auto. exfalso.
+    apply mem_false_In in Em. apply Em. unfold auto_sel. apply in_map. apply filter_In. auto.
+Qed.
+
+Theorem C12_auto_admissible ps ex :
+  valid_sig ps = true -> admissible [] (auto_sel ps ex) ps = true.
+Proof.
+  intros Hv. apply valid_sig_parts in Hv. destruct Hv as [Hval _].
+  destruct (validate_aux_nodup _ _ _ _ Hval) as [Hnd _].
+  unfold admissible. cbn [set_inter filter is_nil app andb]. rewrite po_prefix_nil, andb_true_r.
+  apply andb_true_iff. split.
+  - apply forallb_forall. intros x Hx. apply mem_In. unfold auto_sel in Hx.
+    apply in_map_iff in Hx. destruct Hx as (q & <- & Hq). apply filter_In in Hq.
+    apply in_map. tauto.
+  - apply forallb_forall. intros p Hp. unfold kind_sel_ok, named. cbn [mem orb andb].
+    rewrite andb_false_r, orb_false_r.
+    destruct (mem (pname p) (auto_sel ps ex)) eqn:Em; cbn [negb]; [|rewrite orb_true_r; reflexivity].
+    apply mem_In in Em. unfold auto_sel in Em. apply in_map_iff in Em.
+    destruct Em as (q & Hn & Hq). apply filter_In in Hq. destruct Hq as [Hq Hc].
+    assert (q = p) by (apply (NoDup_names_inj ps); auto). subst q.
+    apply andb_true_iff in Hc. destruct Hc as [Hc _]. unfold pkdef in Hc.
+    apply andb_true_iff in Hc. destruct Hc as [-> _]. reflexivity.
+Qed.
+
+(* autokwoargs(exceptions=ex): ValueError iff an excepted name is not a regular
+   parameter with a default; otherwise exactly the other regular parameters
+   with a default become keyword-only (nothing to do: the function itself) *)
+Theorem C12_sig_auto ps ex :
+  valid_sig ps = true ->
+  decorate ps (FAuto ex) =
+  if forallb (fun x => mem x (map pname (filter pkdef ps))) ex
+  then match auto_sel ps ex with
+       | [] => Ok (ps, [], [])
+       | _ :: _ => Ok (adv_spec [] (auto_sel ps ex) ps, kwopos_from [] (auto_sel ps ex) 0 ps, [])
+       end
+  else Err ValueErr.
+Proof.
+  intros Hv. rewrite (C12_sig_decorate ps (FAuto ex) Hv). cbn [select].
+  rewrite (C12_auto_names ps ex Hv).
+  destruct (forallb (fun x => mem x (map pname (filter pkdef ps))) ex); cbn [bind]; [|reflexivity].
+  pose proof (C12_auto_admissible ps ex Hv) as Ha.
+  destruct (auto_sel ps ex) as [|y l]; [reflexivity|]. rewrite Ha. reflexivity.
+Qed.
+
+(* ------------------------------------------------------------------ the hypotheses are satisfiable *)
+Definition ex_ps : list param :=
+  [mkParam 1 PK None None UEmpty; mkParam 2 PK (Some 102) None UEmpty;
+   mkParam 3 PK (Some 103) None UEmpty; mkParam 9 VP None None UEmpty;
+   mkParam 4 KO None None UEmpty; mkParam 10 VK None None UEmpty].
+
+Example C12_sig_example :
+  valid_sig ex_ps = true /\ admissible [1] [2] ex_ps = true /\
+  admissible [2] [] ex_ps = false /\ admissible [1] [4; 7] ex_ps = false /\
+  prepare ex_ps [1] [2] =
+  Ok ([mkParam 1 PO None None UEmpty; mkParam 3 PK (Some 103) None UEmpty;
+       mkParam 9 VP None None UEmpty; mkParam 4 KO None None UEmpty;
+       mkParam 2 KO (Some 102) None UEmpty; mkParam 10 VK None None UEmpty],
+      [(1%nat, mkParam 2 PK (Some 102) None UEmpty)]).
+Proof. repeat split; reflexivity. Qed.
+
+Example C12_call_example :
+  exists adv kp,
+    prepare ex_ps [1] [2] = Ok (adv, kp) /\
+    named_posonly adv [1] [(4, 304); (2, 302); (7, 307)] = false /\
+    decorated_call ex_ps kp [1] [200; 201; 202] [(4, 304); (2, 302); (7, 307)]
+    = Some [(1, BV 200); (2, BV 302); (3, BV 201); (9, BTup [202]); (4, BV 304);
+            (10, BDict [(7, 307)])] /\
+    bindv adv [200; 201; 202] [(4, 304); (2, 302); (7, 307)]
+    = Some [(1, BV 200); (3, BV 201); (9, BTup [202]); (4, BV 304); (2, BV 302);
+            (10, BDict [(7, 307)])].
+Proof. eexists. eexists. split; [reflexivity|]. repeat split; reflexivity. Qed.
+
+Example C12_call_bound_example :
+  let ps := [mkParam 13 PK None None UEmpty; mkParam 1 PK None None UEmpty;
+             mkParam 2 PK (Some 102) None UEmpty] in
+  valid_sig ps = true /\
+  decorate_bound ps (FEnd 1 []) =
+  Ok ([mkParam 1 PO None None UEmpty; mkParam 2 PK (Some 102) None UEmpty], [], [1]) /\
+  kmem 13 [(2, 302)] = false /\
+  named_posonly [mkParam 1 PO None None UEmpty; mkParam 2 PK (Some 102) None UEmpty] [1] [(2, 302)] = false.
+Proof. repeat split; reflexivity. Qed.
+
+Example C12_sig_auto_example :
+  decorate ex_ps (FAuto [2]) =
+  Ok ([mkParam 1 PK None None UEmpty; mkParam 2 PK (Some 102) None UEmpty;
+       mkParam 9 VP None None UEmpty; mkParam 4 KO None None UEmpty;
+       mkParam 3 KO (Some 103) None UEmpty; mkParam 10 VK None None UEmpty],
+      [(2%nat, mkParam 3 PK (Some 103) None UEmpty)], []) /\
+  decorate ex_ps (FAuto [1]) = Err ValueErr.
+Proof. split; reflexivity. Qed.
+
+Print Assumptions C12_sig.
+Print Assumptions C12_call.
+Print Assumptions C12_call_excluded.
+Print Assumptions C12_sig_decorate.
+Print Assumptions C12_call_decorate.
+Print Assumptions C12_sig_bound.
+Print Assumptions C12_call_bound.
+Print Assumptions C12_auto_names.
+Print Assumptions C12_auto_admissible.
+Print Assumptions C12_sig_auto.
